@@ -304,6 +304,19 @@ def mapOpt (mapfn : α → α) : Option α → α
 def rprob1g (mapfn : α → α) (chr : List Int) (pos : List α) : List α :=
   (gdist1g chr pos).map (mapOpt mapfn)
 
+/-! Spec oracle evaluated on the crossover probabilities the implementation stores (driver op
+    `c02.spec_starts`; `none` = a value that is not a finite number): exactly 1/2 at marker 0 and at every
+    marker whose chromosome label differs from its predecessor's, one value per marker. -/
+def specStartsFrom [DecidableEq α] : Int → List Int → List (Option α) → Bool
+  | c0, c :: cs, x :: xs => (decide (c = c0) || x == some (1 / 2)) && specStartsFrom c cs xs
+  | _, [], [] => true
+  | _, _, _ => false
+
+def specStarts [DecidableEq α] : List Int → List (Option α) → Bool
+  | c :: cs, x :: xs => x == some (1 / 2) && specStartsFrom c cs xs
+  | [], [] => true
+  | _, _ => false
+
 end gmap
 
 /-! ### the law of the crossover mask and the closed forms -/
@@ -362,6 +375,12 @@ def oddProb (xs : List α) : α := (1 - prodD xs) / 2
 /-- closed form: markers i < j come from different parental copies -/
 def pairProb (xs : List α) (i j : Nat) : α := oddProb ((xs.drop (i + 1)).take (j - i))
 
+/-- closed form: two independent gametes carry the same parental copy at every marker
+    (`Π (x_k² + (1 - x_k)²)`: no crossover in either or a crossover in both, interval by interval) -/
+def sameProb : List α → α
+  | [] => 1
+  | x :: xs => (x * x + (1 - x) * (1 - x)) * sameProb xs
+
 /-- closed form: marker j comes from copy 1 -/
 def phaseProb (xs : List α) (j : Nat) : α := oddProb (xs.take (j + 1))
 
@@ -381,6 +400,49 @@ def lab2 (a b0 b1 : List Bool) (k : Nat) : Bool :=
 def pairProb2 (xs : List α) (i j : Nat) : α :=
   (1 - pairProb xs i j) * pairProb xs i j +
   pairProb xs i j * (phaseProb xs i * (1 - phaseProb xs j) + (1 - phaseProb xs i) * phaseProb xs j)
+
+/-! ### any number of selfing generations
+
+A founder plant with chromosome copies 0 and 1 is selfed `n` times (`selfGens`: in every generation both copies
+of the plant are gametes of the plant of the previous generation, each under its own draws).  The crossover masks
+of the `2n` meioses of one line are laid side by side, OLDEST generation first (the order in which `mate()`
+draws them): `b = a0 ++ a1 ++ rest`, `a0` / `a1` = masks of the gametes that became copy 0 / copy 1 of the
+generation-1 plant, `rest` = the masks of the `n - 1` later generations. -/
+
+/-- which copy of the founder is carried at marker `k` by copy `c` of the plant after `n` selfing generations
+    (`m` markers): relative to the generation-1 plant the cell sits on its copy `x = labO (n-1) rest c k`, and
+    that copy is the founder's gamete under mask `a_x` -/
+def labO (m : Nat) : Nat → List Bool → Bool → Nat → Bool
+  | 0, _, c, _ => c
+  | n + 1, b, c, k =>
+      (phases (if labO m n (b.drop (m + m)) c k then (b.drop m).take m else b.take m)).getD k false
+
+/-- a gamete (a doubled haploid, the next generation's chromosome copy) of the plant after `n` selfing
+    generations: the gamete's own mask first, then the `2n` masks of the plant's line as in `labO` -/
+def labDH (m n : Nat) (b : List Bool) (k : Nat) : Bool :=
+  labO m n (b.drop m) ((phases (b.take m)).getD k false) k
+
+/-- one selfing generation seen from the founder: if the cells at two markers sit on different copies of the
+    generation-1 plant with probability `x`, they carry different founder copies with probability
+    `r (1 - x) + w x` (`r`: the two markers recombine within one gamete; `w`: two independent gametes of the
+    founder differ at the two markers) -/
+def selfStep (r w x : α) : α := r * (1 - x) + w * x
+
+/-- `n` generations -/
+def selfIter (r w : α) : Nat → α → α
+  | 0, x => x
+  | n + 1, x => selfStep r w (selfIter r w n x)
+
+/-- two independent gametes: the first carries copy 1 at i xor the second carries copy 1 at j -/
+def crossProb (xs : List α) (i j : Nat) : α :=
+  phaseProb xs i * (1 - phaseProb xs j) + (1 - phaseProb xs i) * phaseProb xs j
+
+/-- closed form: after `n` selfing generations, markers i < j of ONE chromosome copy of the plant carry
+    different founder copies -/
+def pairProbN (xs : List α) (i j n : Nat) : α := selfIter (pairProb xs i j) (crossProb xs i j) n 0
+
+/-- closed form: marker i of copy 0 and marker j of copy 1 of the SAME plant carry different founder copies -/
+def crossProbN (xs : List α) (i j n : Nat) : α := selfIter (pairProb xs i j) (crossProb xs i j) n 1
 
 /-- expectation over the uniform draws themselves: every draw takes each value of `pts` with equal
     weight, independently per marker, and is compared with `<` against the stored probability -/
@@ -410,5 +472,19 @@ def proportion [NatCast α] (m : Nat) (g : List Bool → α) (n : Nat) (b : List
   blockSum m g n b / (n : α)
 
 end law
+
+/-! ### the plant after n selfing generations, cell by cell -/
+section gens
+variable {γ : Type}
+
+/-- the two chromosome copies of the plant after `n` selfing generations of a founder with copies `g0`, `g1`
+    (`m` markers; crossover masks oldest generation first, two per generation: `labO`'s layout) -/
+def selfMosaic (m : Nat) : Nat → List γ → List γ → List Bool → List γ × List γ
+  | 0, g0, g1, _ => (g0, g1)
+  | n + 1, g0, g1, b =>
+      selfMosaic m n (mosaic (phases (b.take m)) g0 g1) (mosaic (phases ((b.drop m).take m)) g0 g1)
+        (b.drop (m + m))
+
+end gens
 
 end Recomb
